@@ -17,6 +17,11 @@ CHECKS = {
   text="Proof: BaseAuth.login with the cache enabled is modelled as a total function on two finite maps with a symbolic perfect hash; for every history of attempts, clock advances and credential changes each answer is justified by a back-end answer for the same credentials within the success/failure lifetime, equals the back-end when credentials never change, and is independent of attempts under other logins. Tie: generated histories run through the real login() (scripted _login, clock shim) and the model driver; answers, cached/consulted flags must agree; a model-independent oracle re-checks justification and independence on the implementation.",
   note="Trusted: Lean kernel, standard axioms; SHA3-512 as an injective function of (salt, login, password); clock constant during one call and monotone; ASCII logins for lc/uc; the hand-written model agrees with the code as far as the correspondence run shows.",
   ref="5/C17"),
+ "C04": dict(
+  technique="Lean 4 theorems on models of the four rights back-ends (closed permission tables; re.escape is literal through a modelled regex parser + backtracking matcher; first-match evaluation of from_file) + exhaustive small-scope and random differential correspondence with Rights.authorization and Python re",
+  text="Proof: authenticated/owner_only/owner_write are modelled verbatim and their documented guarantees (nothing in foreign homes, no foreign write, nothing below depth 2, anonymous gets nothing) are theorems for all names and paths; re.escape is proved to yield a pattern that parses to a literal and full-matches exactly the name, so a user name cannot widen a `{user}` rule; from_file is proved to return the first applicable section. Tie: Rights.authorization of the really loaded back-ends vs the model driver, exhaustively over a small scope and on generated rights files, plus the model's regex engine vs Python re.",
+  note="Trusted: Lean kernel, standard axioms; Python `re` agrees with the modelled regex subset (rule grammar; ASCII for \\w \\d \\s) as far as the run shows; configparser section order; LDAP groups empty; general `{user}`-inside-larger-template literalness is validated by an independent \\U-escape oracle, proved only for the `{user}` template.",
+  ref="5/C04"),
 }
 
 NA_REASON = "check not built yet (work in progress; see DESIGN.md section 5 for the plan)"
